@@ -626,6 +626,83 @@ class _Ctx:
             return nested
         return [ast.For(target=gen.target, iter=gen.iter, body=inner, orelse=[], type_comment=None)]
 
+    def _desugar_pop_marker(self, s: ast.stmt) -> Optional[List[ast.stmt]]:
+        """`x = d.pop(k, MARKER)` with a module-level `MARKER = object()`: `if k in d: x = d.pop(k)` / `else: x = MARKER` - the pop
+        happens exactly when the key is there (also with a walrus: `(x := d.pop(k, MARKER))` as a statement's test is not touched)."""
+        import copy
+
+        def marker_pop(c):
+            if not (isinstance(c, ast.Call) and isinstance(c.func, ast.Attribute) and c.func.attr == 'pop' and len(c.args) == 2
+                    and not c.keywords and isinstance(c.args[1], ast.Name)):
+                return False
+            r_ = self.prog.resolve_name(c.args[1].id, self.fn.module)
+            mv = r_[1][0].assigns.get(r_[1][1]) if r_ is not None and r_[0] == 'modattr' else None
+            if not (isinstance(mv, ast.Call) and isinstance(mv.func, ast.Name) and mv.func.id == 'object' and not mv.args):
+                return False
+            return not any(isinstance(y, ast.Call) for a in (c.func.value, c.args[0]) for y in ast.walk(a))
+        if isinstance(s, ast.If) and isinstance(s.test, ast.Compare) and len(s.test.ops) == 1 and isinstance(s.test.ops[0], (ast.Is, ast.IsNot)) \
+                and isinstance(s.test.comparators[0], ast.Name):
+            # `if d.pop(k, MARKER) is MARKER:` / `if (x := d.pop(k, MARKER)) is not MARKER:`
+            left = s.test.left
+            tgt_ = None
+            if isinstance(left, ast.NamedExpr) and isinstance(left.target, ast.Name):
+                tgt_, left = left.target, left.value
+            if marker_pop(left) and left.args[1].id == s.test.comparators[0].id:
+                d, k = left.func.value, left.args[0]
+                popc = ast.Call(func=copy.deepcopy(left.func), args=[copy.deepcopy(k)], keywords=[])
+                hit = [ast.Assign(targets=[ast.Name(id=tgt_.id, ctx=ast.Store())], value=popc)] if tgt_ is not None else [ast.Expr(value=popc)]
+                miss = [ast.Assign(targets=[ast.Name(id=tgt_.id, ctx=ast.Store())], value=copy.deepcopy(left.args[1]))] if tgt_ is not None else []
+                absent_branch, present_branch = (s.body, s.orelse) if isinstance(s.test.ops[0], ast.Is) else (s.orelse, s.body)
+                out = [ast.If(test=ast.Compare(left=copy.deepcopy(k), ops=[ast.In()], comparators=[copy.deepcopy(d)]),
+                              body=hit + list(present_branch) or [ast.Pass()], orelse=miss + list(absent_branch))]
+                for o in out:
+                    ast.copy_location(o, s)
+                    ast.fix_missing_locations(o)
+                return out
+        if not (isinstance(s, ast.Assign) and len(s.targets) == 1 and isinstance(s.targets[0], ast.Name) and marker_pop(s.value)):
+            return None
+        c = s.value
+        d, k = c.func.value, c.args[0]
+        hit = ast.Assign(targets=[copy.deepcopy(s.targets[0])], value=ast.Call(func=copy.deepcopy(c.func), args=[copy.deepcopy(k)], keywords=[]))
+        miss = ast.Assign(targets=[copy.deepcopy(s.targets[0])], value=copy.deepcopy(c.args[1]))
+        out = [ast.If(test=ast.Compare(left=copy.deepcopy(k), ops=[ast.In()], comparators=[copy.deepcopy(d)]), body=[hit], orelse=[miss])]
+        for o in out:
+            ast.copy_location(o, s)
+            ast.fix_missing_locations(o)
+        return out
+
+    def _desugar_list_of_generator(self, s: ast.stmt) -> Optional[List[ast.stmt]]:
+        """`x = list(gen(...))` / `return list(gen(...))` with gen a generator function of the package: the loop that fills the
+        list from it (which the generator expansion then reads as the generator's own loop)."""
+        if isinstance(s, ast.Return) and isinstance(s.value, ast.Call):
+            c, name = s.value, f"_lg{s.lineno}_{s.col_offset}"
+        elif isinstance(s, ast.Assign) and len(s.targets) == 1 and isinstance(s.targets[0], ast.Name) and isinstance(s.value, ast.Call):
+            c, name = s.value, s.targets[0].id
+        else:
+            return None
+        if not (isinstance(c.func, ast.Name) and c.func.id == 'list' and len(c.args) == 1 and not c.keywords and isinstance(c.args[0], ast.Call)):
+            return None
+        try:
+            tgt = self.ti.resolve_call(c.args[0], self.fn, self.types)
+        except Exception:
+            return None
+        if tgt.kind != 'pkg' or len(tgt.funcs) != 1 or tgt.via == 'ctor':
+            return None
+        g = tgt.funcs[0]
+        if not any(isinstance(y, (ast.Yield, ast.YieldFrom)) for b in g.node.body for y in self._walk_own(b)):
+            return None
+        var = f"_gv{s.lineno}_{s.col_offset}"
+        out = [ast.Assign(targets=[ast.Name(id=name, ctx=ast.Store())], value=ast.List(elts=[], ctx=ast.Load())),
+               ast.For(target=ast.Name(id=var, ctx=ast.Store()), iter=c.args[0],
+                       body=[ast.Expr(value=ast.Call(func=ast.Attribute(value=ast.Name(id=name, ctx=ast.Load()), attr='append', ctx=ast.Load()),
+                                                     args=[ast.Name(id=var, ctx=ast.Load())], keywords=[]))], orelse=[], type_comment=None)]
+        if isinstance(s, ast.Return):
+            out.append(ast.Return(value=ast.Name(id=name, ctx=ast.Load())))
+        for o in out:
+            ast.copy_location(o, s)
+            ast.fix_missing_locations(o)
+        return out
+
     def _desugar_multicomp(self, s: ast.stmt) -> Optional[List[ast.stmt]]:
         """`x = [e for a in A for b in B if c]` / `return [...]` with two or more generators: the nested loops with `append` that
         the comprehension is defined as (targets renamed apart - comprehension variables are local to it)."""
@@ -784,7 +861,7 @@ class _Ctx:
             ds = getattr(s, '_desugared', None)
             if ds is None:
                 ds = self._desugar_setdefault(s) or self._desugar_ifexp(s) or self._desugar_shortcircuit(s) or self._desugar_extend(s) or \
-                    self._desugar_multicomp(s) or False
+                    self._desugar_multicomp(s) or self._desugar_pop_marker(s) or self._desugar_list_of_generator(s) or False
                 try:
                     s._desugared = ds
                 except Exception:
@@ -1421,28 +1498,71 @@ class _Ctx:
             return None
         g = tgt.funcs[0]
         gnode = g.node
-        own = [y for st_ in gnode.body for y in self._walk_own(st_)]
-        yields = [y for y in own if isinstance(y, (ast.Yield, ast.YieldFrom))]
-        if not yields or any(isinstance(y, ast.YieldFrom) for y in yields) or len(self.inline_stack) >= 3 or g.qualname in self.inline_stack:
+        import copy
+        own0 = [y for st_ in gnode.body for y in self._walk_own(st_)]
+        if not any(isinstance(y, (ast.Yield, ast.YieldFrom)) for y in own0) or len(self.inline_stack) >= 3 or g.qualname in self.inline_stack:
             return None
-        body = [b for b in gnode.body if not (isinstance(b, ast.Expr) and isinstance(b.value, ast.Constant))]      # docstring
+        body = [copy.deepcopy(b) for b in gnode.body if not (isinstance(b, ast.Expr) and isinstance(b.value, ast.Constant))]      # docstring
         if not body:
             return None
-        prelude, loop = body[:-1], body[-1]
-        if not isinstance(loop, (ast.For, ast.While)) or loop.orelse:
-            return None
-        if any(isinstance(y, (ast.Yield, ast.Return)) for p_ in prelude for y in self._walk_own(p_)):
-            return None
-        # every yield is a statement `yield e`; `return` carries no value
-        for y in self._walk_own(loop):
-            if isinstance(y, ast.Return) and y.value is not None:
-                return None
-        ystmts = [y for y in self._walk_own(loop) if isinstance(y, ast.Expr) and isinstance(y.value, ast.Yield)]
-        if len(ystmts) != len(yields):
+        # `yield from X` is `for v in X: yield v`
+        yf_n = [0]
+
+        class YF(ast.NodeTransformer):
+            def visit_FunctionDef(self, n):
+                return n
+            visit_Lambda = visit_FunctionDef
+
+            def visit_Expr(self, n):
+                if isinstance(n.value, ast.YieldFrom):
+                    yf_n[0] += 1
+                    v_ = f"_yf{yf_n[0]}"
+                    lp = ast.For(target=ast.Name(id=v_, ctx=ast.Store()), iter=n.value.value,
+                                 body=[ast.Expr(value=ast.Yield(value=ast.Name(id=v_, ctx=ast.Load())))], orelse=[], type_comment=None)
+                    return ast.fix_missing_locations(ast.copy_location(lp, n))
+                return self.generic_visit(n)
+        body = [YF().visit(b) for b in body]
+
+        # an early `if c: ...; return` at the top level is `if c: ... else: <the rest>`
+        def no_early_return(stmts):
+            for i, b in enumerate(stmts):
+                if isinstance(b, ast.If) and not b.orelse and b.body and isinstance(b.body[-1], ast.Return) and b.body[-1].value is None \
+                        and i + 1 < len(stmts):
+                    b.body = no_early_return(b.body[:-1]) or [ast.Pass()]
+                    b.orelse = no_early_return(stmts[i + 1:])
+                    return stmts[:i + 1]
+            return stmts
+        body = no_early_return(body)
+        own = [y for st_ in body for y in self._walk_own(st_)]
+        yields = [y for y in own if isinstance(y, (ast.Yield, ast.YieldFrom))]
+        if not yields or any(isinstance(y, ast.YieldFrom) for y in yields):
             return None
         body_has_continue = any(isinstance(y, ast.Continue) for b in s.body for y in self._walk_own(b, loops=False))
-        if body_has_continue and not self._yields_last(loop):
+
+        # shape: G ::= <yield-free prelude> <loop>  |  <yield-free prelude> if c: G [else: G]
+        def shape_ok(stmts):
+            if not stmts:
+                return True
+            prelude_, last = stmts[:-1], stmts[-1]
+            if any(isinstance(y, (ast.Yield, ast.Return)) for p_ in prelude_ for y in self._walk_own(p_)):
+                return False
+            if isinstance(last, (ast.For, ast.While)):
+                if last.orelse:
+                    return False
+                for y in self._walk_own(last):
+                    if isinstance(y, ast.Return) and y.value is not None:
+                        return False
+                ys = [y for y in self._walk_own(last) if isinstance(y, ast.Yield)]
+                yst = [y for y in self._walk_own(last) if isinstance(y, ast.Expr) and isinstance(y.value, ast.Yield)]
+                if len(ys) != len(yst):
+                    return False
+                return not (body_has_continue and not self._yields_last(last))
+            if isinstance(last, ast.If):
+                return shape_ok(last.body) and shape_ok(last.orelse)
+            return not any(isinstance(y, (ast.Yield, ast.Return)) for y in self._walk_own(last))
+        if not shape_ok(body):
             return None
+        prelude, loop = body[:-1], body[-1]
         # argument binding
         call = s.iter
         params = [a.arg for a in gnode.args.posonlyargs + gnode.args.args]
@@ -1548,7 +1668,41 @@ class _Ctx:
             return True
         return ok(loop.body, True)
 
+    def _takewhile_loop(self, s: ast.For, st: State):
+        """`for x in takewhile(P, X): BODY` is `for x in X: if not P(x): break; BODY`."""
+        it = s.iter
+        if not (isinstance(it, ast.Call) and len(it.args) == 2 and not it.keywords and not s.orelse):
+            return None
+        r_ = self.prog.resolve_name(it.func.id, self.fn.module) if isinstance(it.func, ast.Name) else \
+            self.prog.resolve_expr_static(it.func, self.fn.module) if isinstance(it.func, ast.Attribute) else None
+        if r_ is None and isinstance(it.func, ast.Name) and st.env.get(it.func.id) == Sym('itertools.takewhile'):
+            r_ = ('ext', 'itertools.takewhile')
+        if not (r_ and r_[0] == 'ext' and r_[1] == 'itertools.takewhile'):
+            return None
+        if not isinstance(s.target, ast.Name):
+            return None
+        import copy
+        test = ast.UnaryOp(op=ast.Not(), operand=ast.Call(func=copy.deepcopy(it.args[0]), args=[ast.Name(id=s.target.id, ctx=ast.Load())], keywords=[]))
+        guard = ast.If(test=test, body=[ast.Break()], orelse=[])
+        new = ast.For(target=s.target, iter=it.args[1], body=[guard] + list(s.body), orelse=[], type_comment=None)
+        ast.copy_location(new, s)
+        ast.copy_location(guard, s)
+        ast.fix_missing_locations(new)
+        return new
+
     def st_For(self, s, st):
+        tw = getattr(s, '_takewhile', None)
+        if tw is None:
+            try:
+                tw = self._takewhile_loop(s, st) or False
+            except Exception:
+                tw = False
+            try:
+                s._takewhile = tw
+            except Exception:
+                pass
+        if tw:
+            return self.st_For(tw, st)
         exp = getattr(s, '_gen_expansion', None)
         if exp is None:
             try:
@@ -1704,7 +1858,68 @@ class _Ctx:
                 break
         return results
 
+    def _contextmanager_expansion(self, s: ast.With):
+        """`with self._cm(args): BODY` where _cm is a package generator under @contextmanager with a single top-level `yield`
+        (no value bound, not inside try): PRE; BODY; POST - POST runs only when BODY completes normally, exactly as the
+        generator is resumed only then (an exception is thrown into it at the yield and propagates)."""
+        if len(s.items) != 1 or s.items[0].optional_vars is not None or not isinstance(s.items[0].context_expr, ast.Call):
+            return None
+        call = s.items[0].context_expr
+        try:
+            tgt = self.ti.resolve_call(call, self.fn, self.types)
+        except Exception:
+            return None
+        if tgt.kind != 'pkg' or len(tgt.funcs) != 1 or tgt.via == 'ctor':
+            return None
+        g = tgt.funcs[0]
+        if not any(d.split('.')[-1] == 'contextmanager' for d in g.decorators):
+            return None
+        body = [b for b in g.node.body if not (isinstance(b, ast.Expr) and isinstance(b.value, ast.Constant))]
+        ys = [i for i, b in enumerate(body) if isinstance(b, ast.Expr) and isinstance(b.value, ast.Yield)]
+        all_y = [y for b in body for y in self._walk_own(b) if isinstance(y, (ast.Yield, ast.YieldFrom))]
+        if len(ys) != 1 or len(all_y) != 1 or body[ys[0]].value.value is not None:
+            return None
+        if any(isinstance(y, ast.Return) for b in body for y in self._walk_own(b)):
+            return None
+        # only `self` may be a parameter (bound to the receiver); BODY may not leave through return / break / continue, which
+        # would skip POST in this spelling but run it in the generator (GeneratorExit aside)
+        params = [a.arg for a in g.node.args.args]
+        if call.args or call.keywords or len(params) > 1 or g.node.args.vararg or g.node.args.kwarg:
+            return None
+        if params and not (isinstance(call.func, ast.Attribute) and isinstance(call.func.value, ast.Name) and call.func.value.id == params[0]):
+            return None
+        post = body[ys[0] + 1:]
+        def leaves(b):
+            # return anywhere, break / continue outside the block's own loops
+            for y in self._walk_own(b):
+                if isinstance(y, ast.Return):
+                    return True
+            if isinstance(b, (ast.For, ast.While)):
+                return False
+            return any(isinstance(y, (ast.Break, ast.Continue)) for y in self._walk_own(b, loops=False))
+        if post and any(leaves(b) for b in s.body):
+            return None
+        import copy
+        out = copy.deepcopy(body[:ys[0]]) + list(s.body) + copy.deepcopy(post)
+        return out, g
+
     def st_With(self, s, st):
+        exp = getattr(s, '_cm_expansion', None)
+        if exp is None:
+            try:
+                exp = self._contextmanager_expansion(s) or False
+            except Exception:
+                exp = False
+            try:
+                s._cm_expansion = exp
+            except Exception:
+                pass
+        if exp:
+            stmts_, g_ = exp
+            # the call-graph edge stays: the context manager's statements are the manager's, reached from here
+            self.emit(st, 'call', s, targets=[g_], target_kind='pkg', callee_name=g_.qualname, recv=None, args=(), kw=(), via='with',
+                      expr=s.items[0].context_expr, result=None, inlined=True, full_inline=True)
+            return self.block(stmts_, [st])
         for item in s.items:
             v = self.ev(item.context_expr, st, stmt=s)
             self.emit(st, 'with', s, ctx=v)
@@ -1887,6 +2102,38 @@ class _Ctx:
                     return (owner.qualname, f)
         return None
 
+    def _ctor_field(self, obj: App, attr: str, st: State):
+        ci = self.prog.classes.get(obj.fn[4:])
+        if ci is None:
+            return None
+        ms = self.prog.lookup_method(ci, '__init__')
+        if not ms:
+            return None
+        init = ms[0]
+        body = init.body
+        if not init.params or not all(isinstance(s_, ast.Assign) and len(s_.targets) == 1 and isinstance(s_.targets[0], ast.Attribute) and
+                                      isinstance(s_.targets[0].value, ast.Name) and s_.targets[0].value.id == init.params[0] and
+                                      isinstance(s_.value, ast.Name) for s_ in body):
+            return None
+        src = [s_.value.id for s_ in body if s_.targets[0].attr == attr]
+        if len(src) != 1 or src[0] not in init.params[1:] + init.kwonly:
+            return None
+        # no other code of the package writes that field of that class (frozen in effect)
+        if not hasattr(self.w, '_field_writers'):
+            self.w._field_writers = {}
+            for mi in self.prog.modules.values():
+                for n in ast.walk(mi.tree):
+                    if isinstance(n, ast.Attribute) and isinstance(n.ctx, (ast.Store, ast.Del)):
+                        self.w._field_writers.setdefault(n.attr, 0)
+                        self.w._field_writers[n.attr] += 1
+        kw = {k: v for k, v in obj.kw if k not in ('<cls>',)}
+        if '**' in kw or '<cls>' in dict(obj.kw):
+            return None
+        benv = self.bind_args(init, obj, list(obj.args), kw, st, True)
+        if benv is None:
+            return None
+        return benv.get(src[0])
+
     def _property_chain(self, ci, attr):
         """['model', 'random'] when `attr` is a property of `ci` whose getter is `return self.model.random` (plain fields only)."""
         for m in self.prog.lookup_method(ci, attr):
@@ -2013,6 +2260,14 @@ class _Ctx:
                 loc = lt
         # a store through a local alias of a field keeps the field's location
         shared = rk != 'fresh'
+        if rk == 'fresh' and (loc is None or loc[0] == '?') and isinstance(target_expr, (ast.Name, ast.Subscript)):
+            # ... also when the object was allocated here and bound to the field and to a local at once (`store = self.f = {}`)
+            for ev0 in reversed(st.events):
+                if ev0.kind == 'store' and ev0.data.get('store') == 'rebind' and ev0.data.get('loc') and ev0.data.get('value') == root \
+                        and ev0.data['loc'][0] != '?':
+                    loc = ev0.data['loc']
+                    shared = True
+                    break
         if rk == 'local' and isinstance(target_expr, ast.Name):
             shared = False
         ev = self.emit(st, 'store', node, store=kind, target=target_term, root_kind=rk, root=root, loc=loc,
@@ -2171,6 +2426,15 @@ class _Ctx:
                 v = m.assigns.get(name)
                 if isinstance(v, ast.Constant):
                     return self.ex_Constant(v, st)
+                if isinstance(v, ast.Attribute) and m is self.fn.module and not getattr(self, '_alias_busy', False):
+                    # NAME = ModelStatus.COMPLETE at module level (bound once): the member it names
+                    r_a = self.prog.resolve_expr_static(v, m)
+                    if r_a is not None and r_a[0] == 'classattr' and self.prog.is_enum(r_a[1][0]):
+                        self._alias_busy = True
+                        try:
+                            return self.ev(v, State())
+                        finally:
+                            self._alias_busy = False
                 if isinstance(v, ast.Tuple) and m is self.fn.module and len(list(ast.walk(v))) <= 200 and \
                         all(isinstance(x, (ast.Tuple, ast.Constant, ast.Name, ast.Attribute, ast.Load, ast.UnaryOp, ast.USub)) for x in ast.walk(v)):
                     # a module-level constant table of constants / functions / enum members
@@ -2222,6 +2486,13 @@ class _Ctx:
         path = Attr(base, e.attr)
         if path in st.heap:
             return st.heap[path]
+        nb = strip_at(base)
+        if isinstance(nb, App) and nb.fn.startswith('new:'):
+            # a field of an object built in this call by a constructor that just stores its arguments (a dataclass, a record):
+            # the argument the field was given
+            fv = self._ctor_field(nb, e.attr, st)
+            if fv is not None:
+                return fv
         # property getter of a package class: inline when it is a single return expression
         bt = self.ti.expr_type(e.value, self.fn, self.types)
         if not bt:
@@ -2541,6 +2812,11 @@ class _Ctx:
             return self.cmp(ast.Eq() if isinstance(op, ast.Is) else ast.NotEq(), a, b, st)
         if isinstance(op, (ast.Is, ast.IsNot)):
             for u, w in ((a, b), (b, a)):
+                if isinstance(u, BoolT) and isinstance(w, Const) and isinstance(w.value, bool):
+                    # a value known to be a bool `is True` / `is False`
+                    f0 = u.f if w.value else f_not(u.f)
+                    return f0 if isinstance(op, ast.Is) else f_not(f0)
+            for u, w in ((a, b), (b, a)):
                 if isinstance(u, IfT) and (isinstance(w, Const) or self.is_sentinel(w)):
                     f = f_or(f_and(u.cond, self.cmp(ast.Is(), u.a, w, st)), f_and(f_not(u.cond), self.cmp(ast.Is(), u.b, w, st)))
                     return f if isinstance(op, ast.Is) else f_not(f)
@@ -2724,6 +3000,21 @@ class _Ctx:
                     ast.fix_missing_locations(g)
                     return g
             return None
+        r_sm = self.prog.resolve_name(f.id, self.fn.module) if isinstance(f, ast.Name) and f.id not in st.env else \
+            self.prog.resolve_expr_static(f, self.fn.module) if isinstance(f, ast.Attribute) else None
+        if r_sm and r_sm[0] == 'ext' and r_sm[1] == 'itertools.starmap' and len(e.args) == 2 and not e.keywords:
+            F0, X0 = e.args
+            if isinstance(X0, ast.Call) and isinstance(X0.func, ast.Name) and X0.func.id == 'zip' and not X0.keywords and 1 <= len(X0.args) <= 4 \
+                    and isinstance(F0, (ast.Name, ast.Attribute)):
+                vs = [f"_s{e.lineno}_{e.col_offset}_{i}" for i in range(len(X0.args))]
+                tgt_ = ast.Tuple(elts=[ast.Name(id=v, ctx=ast.Store()) for v in vs], ctx=ast.Store()) if len(vs) > 1 else ast.Name(id=vs[0], ctx=ast.Store())
+                it_ = X0 if len(vs) > 1 else X0.args[0]
+                g = ast.GeneratorExp(elt=ast.Call(func=F0, args=[ast.Name(id=v, ctx=ast.Load()) for v in vs], keywords=[]),
+                                     generators=[ast.comprehension(target=tgt_, iter=it_, ifs=[], is_async=0)])
+                ast.copy_location(g, e)
+                ast.fix_missing_locations(g)
+                return g
+            return None
         if not (isinstance(f, ast.Name) and f.id in ('map', 'filter') and f.id not in st.env and len(e.args) == 2 and not e.keywords
                 and self.prog.resolve_name(f.id, self.fn.module) is None):
             return None
@@ -2747,6 +3038,8 @@ class _Ctx:
                 return R().visit(copy.deepcopy(F.body))
             if isinstance(F, ast.Attribute) and F.attr == '__getitem__':
                 return ast.Subscript(value=F.value, slice=x, ctx=ast.Load())
+            if isinstance(F, ast.Attribute) and F.attr == '__contains__':
+                return ast.Compare(left=x, ops=[ast.In()], comparators=[F.value])
             if isinstance(F, ast.Call) and not F.keywords:
                 fn_ = F.func.attr if isinstance(F.func, ast.Attribute) else (F.func.id if isinstance(F.func, ast.Name) else None)
                 r_ = self.prog.resolve_expr_static(F.func, self.fn.module) if isinstance(F.func, ast.Attribute) else \
@@ -2830,6 +3123,37 @@ class _Ctx:
 
     def ex_Call(self, e: ast.Call, st: State) -> Term:
         f = e.func
+        dn = getattr(e, '_dunder', None)
+        if dn is None:
+            dn = False
+            if isinstance(f, ast.Attribute) and f.attr in ('__contains__', '__getitem__', '__len__') and not e.keywords and \
+                    not any(isinstance(a, ast.Starred) for a in e.args):
+                recv_ast = f.value
+                r_cls = isinstance(recv_ast, ast.Name) and recv_ast.id in ('dict', 'list', 'tuple', 'set', 'frozenset') and recv_ast.id not in st.env
+                args_ast = list(e.args)
+                if r_cls and args_ast:
+                    recv_ast, args_ast = args_ast[0], args_ast[1:]          # dict.__contains__(d, k)
+                try:
+                    rt_ = self.ti.expr_type(recv_ast, self.fn, self.types)
+                except Exception:
+                    rt_ = None
+                plain = bool(rt_ and rt_[0] in ('dict', 'list', 'tuple', 'set')) or r_cls
+                if plain:
+                    if f.attr == '__contains__' and len(args_ast) == 1:
+                        dn = ast.Compare(left=args_ast[0], ops=[ast.In()], comparators=[recv_ast])
+                    elif f.attr == '__getitem__' and len(args_ast) == 1:
+                        dn = ast.Subscript(value=recv_ast, slice=args_ast[0], ctx=ast.Load())
+                    elif f.attr == '__len__' and not args_ast:
+                        dn = ast.Call(func=ast.Name(id='len', ctx=ast.Load()), args=[recv_ast], keywords=[])
+                    if dn:
+                        ast.copy_location(dn, e)
+                        ast.fix_missing_locations(dn)
+            try:
+                e._dunder = dn
+            except Exception:
+                pass
+        if dn:
+            return self.ev(dn, st)
         og = getattr(e, '_getter', None)
         if og is None:
             og = False
@@ -3007,6 +3331,8 @@ class _Ctx:
                 if isinstance(args[1], TupleT):
                     return BoolT(f_or(*[AIsInst(args[0], t) for t in args[1].items]))
                 return BoolT(AIsInst(args[0], args[1]))
+            if b == 'bool' and len(args) == 1 and not kw:
+                return BoolT(self.formula(args[0], st))
             if b == 'issubclass' and len(args) == 2 and isinstance(args[0], App) and args[0].fn == 'type' and len(args[0].args) == 1:
                 # issubclass(type(x), T) is what isinstance(x, T) asks (an object lying about __class__ aside)
                 x0 = args[0].args[0]
